@@ -172,6 +172,17 @@ def c13_obligations(tier, seed):
                "c13::c13_select_returns_stored_node_unchanged", f, b, role="select_exact"),
         akd_ob("C13.select_available", "NotFound is returned only when neither the latest nor the previous node is old enough",
                "c13::c13_select_notfound_only_when_nothing_qualifies", f, b, role="select_available"),
+        {"id": "C13.epoch_reads", "engine": "mir", "kind": "epochreads",
+         "claim": "on every control-flow path of a read request (Directory / ReadOnlyDirectory ::get_epoch_hash, lookup, batch_lookup, key_history, audit) the epoch (Azks) record is read "
+                  "at most once, so that the epoch and root hash an answer names and the tree nodes its proofs are built from come from one reading of the directory's epoch",
+         "functions": ["akd/src/directory.rs::get_epoch_hash", "akd/src/directory.rs::lookup", "akd/src/directory.rs::batch_lookup", "akd/src/directory.rs::key_history", "akd/src/directory.rs::audit",
+                       "akd/src/directory.rs::create_single_update_proof", "akd/src/directory.rs::retrieve_azks", "akd/src/directory.rs::get_azks_from_storage"], "width": 64,
+         "bound": "no loop bound (Horn-clause reachability over (basic block, read count capped at 2) decided by z3's fixedpoint engine); data abstracted: every branch may be taken; "
+                  "all coroutine bodies of the akd crate reachable from the five requests, interprocedurally",
+         "query_cap_s": 120, "cap_s": (600, 600), "stubs": [], "role": "epoch_reads", "instantiation": "generic MIR of the akd crate (features public_auditing, experimental, whatsapp_v1; no preload / parallel features)",
+         "assumes": ["a future of another async fn of the crate is awaited exactly once where it is built (`.await` desugaring); boxed / spawned futures of other crates contribute no epoch-record read",
+                     "over-approximation of feasible paths: a reported path is confirmed by the native schedule search native_stitch before it is reported",
+                     "what 'at most one read' buys - tree nodes are served as of the epoch read - is the selection kernel's claim (the three Kani obligations) plus C11's writer shift"]},
     ]
 
 
@@ -207,6 +218,15 @@ def c15_obligations(tier, seed):
                "c15::c15_read_in_transaction_equals_read_after_commit", [MG + "::compare_db_and_transaction_records"],
                "0..=3 committed, 0..=2 pending states, all five flags; unwind 6",
                assumes=[wf, "the database's own pick and the pending pick are the specification's picks (the latter is C15.pending_pick)"], stubs=()),
+        {"id": "C15.txn_log", "engine": "mir", "kind": "txn",
+         "claim": "Transaction::begin_transaction succeeds exactly when no transaction is open; commit_transaction / rollback_transaction without an open transaction return Err and change nothing; "
+                  "commit returns a clone of EVERY pending record exactly once, sorted by DbRecord::transaction_priority ascending (so, with C11.epoch_record_last, the epoch record last), "
+                  "empties the log and closes the transaction; rollback empties the log and closes the transaction",
+         "functions": [TX + "::begin_transaction", TX + "::commit_transaction", TX + "::rollback_transaction"], "width": 64,
+         "bound": "every initial value of the open flag, the pending set an arbitrary (symbolic, unbounded) multiset handled only as a whole; the three functions have no loop of their own",
+         "query_cap_s": 120, "cap_s": (600, 600), "stubs": [], "role": "txn_log", "instantiation": None,
+         "assumes": ["std / dashmap semantics are the models' (DashMap::iter yields every entry once, clear removes all, sort_by_key sorts by the key, AtomicBool load/store/swap)",
+                     "single caller: interleavings of concurrent callers are outside the claim (C12)"]},
     ]
 
 
@@ -304,6 +324,17 @@ def c07_obligations(tier, seed):
         obs.append(kani_ob("C07.upd_" + nm, uclaims[role], "c07upd::c07_upd_" + nm, [HS + "::verify_single_update_proof"] + L1_FUNCS,
                            HONEST + "; one update proof: epoch/version any u64, one-byte or tombstone value, one-byte nonce, any presented labels and leaf hashes, tombstone opt-in symbolic; unwind 9",
                            cap=(600, 1200), role=role, inst="ModelWA" if "_wa" in nm else "ModelEXP", assumes=[IDEAL_HASH, ORACLE, IDEAL_VRF, MEMOFF], args=NOMEM))
+    obs.append({"id": "C07.glue", "engine": "mir", "kind": "glue",
+                "claim": "key_history_verify returns Ok(results) only on paths on which verify_with_history_params (with the history parameter of the given verification parameter), "
+                         "verify_single_update_proof for EVERY update proof (in order, with the caller's root hash, key, label and parameter), verify_existence for EVERY past marker and "
+                         "verify_nonexistence for EVERY future marker (each with its own version, VRF proof and tree proof, freshness Fresh) were called and returned Ok, the update epochs are "
+                         "non-increasing, and results are exactly the per-update results in order; no panic; conversely it returns Ok when all of these succeed",
+                "functions": ["akd_core/src/verify/history.rs::key_history_verify"], "width": 64,
+                "bound": "k = 1..3 update proofs, p, f = 0..2 markers (quick); k = 1..4, p, f = 0..3 (thorough); epochs 64-bit symbols; every ingredient call returns an arbitrary Result",
+                "query_cap_s": 120, "cap_s": (900, 1800), "stubs": [], "role": "history_glue", "instantiation": "generic MIR (before monomorphisation: holds for every Configuration)",
+                "assumes": ["the ingredients are opaque here and decided by the other C07 layers: verify_with_history_params (shape), verify_single_update_proof (update), verify_existence / verify_nonexistence (L1)",
+                            "the marker vectors of the proof have the lengths verify_with_history_params returned (its post-condition, asserted by the shape layer)",
+                            "panics inside callees (unwind edges) are outside the claim"]})
     return obs
 
 
@@ -414,8 +445,8 @@ PROPERTIES = {
     "C06": {"obligations": c06_obligations, "jobs": 10, "assumptions": [IDEAL_HASH, ORACLE, IDEAL_VRF, MEMOFF],
             "outside_claim": ["values/nonces longer than 2 bytes, more than 3 versions, epochs > 7", "the real ECVRF and blake3", "dishonest trees (C08)"]},
     "C07": {"obligations": c07_obligations, "jobs": 8, "assumptions": [IDEAL_HASH, ORACLE, IDEAL_VRF, MEMOFF],
-            "outside_claim": ["the loop of key_history_verify itself (non-increasing epoch check across update proofs, iteration over the marker vectors): a harness for it was built and withdrawn "
-                              "because Kani's drop-glue artefact made it vacuous or unreliable (DESIGN.md section 9)",
+            "outside_claim": ["key_history_verify as ONE Kani harness (built and withdrawn, DESIGN.md section 9): its body is decided on its MIR by C07.glue with the ingredients opaque, "
+                              "the ingredients by the Kani layers; the composition of the two is an argument, not a solver query",
                               "more than 4 update proofs (shape) / 3 honest versions, epochs > 7", "the real ECVRF and blake3", "the server-side tombstoning (C20)"]},
     "C08": {"obligations": c08_obligations, "jobs": 9,
             "assumptions": ["accepted lookup(m) commits the server to fresh(m), fresh(2^floor(log m)) present and stale(m) absent; accepted history [s..n] to fresh(v) present "
